@@ -338,6 +338,40 @@ theorem loop3_step (E : Zip.Env) (K : Nat) (hsf : FoldsTo sf K) (hE : E.toFold =
       have := key ((s.setCC cc').account f.size)
       rw [← hstep, hacc] at this
       exact this
+
+/-- loop 3 from position `done.length` on: the fold of `stepFile` -/
+theorem loop3_from (E : Zip.Env) (K : Nat) (hsf : FoldsTo sf K) (hE : E.toFold = Zip.strToFold)
+    (htl : ∀ s, decide (tl s = Zip.goModName) = Zip.toLowerIsGoMod s)
+    (vers : Bytes) (ge : Bool) (hge : ge = decide (0 ≤ vc vers go124)) (hgm : List Bytes) (B : Nat) :
+    ∀ (rest done : List Zip.FileInfo) (fuel : Nat) (s : Zip.St),
+    (∀ f ∈ rest, 3 * f.path.length + K + 5 ≤ B) → rest.length + 1 + B ≤ fuel →
+    run3 (Generated.Zip.checkFiles_loop3 (cfpOf E) ef pgv sf tl vc vl ((done ++ rest).map toGFile) (hgOf hgm) vers
+        fuel (done.length : Int)) s =
+      .ok (((done ++ rest).length : Int), epOf (rest.foldl (Zip.stepFile E ge hgm) s).errPaths,
+        embCF (rest.foldl (Zip.stepFile E ge hgm) s).cf, ofCC (rest.foldl (Zip.stepFile E ge hgm) s).cc,
+        (rest.foldl (Zip.stepFile E ge hgm) s).maxSize, (rest.foldl (Zip.stepFile E ge hgm) s).validFiles.map toGFile,
+        (rest.foldl (Zip.stepFile E ge hgm) s).validFiles.map (·.size)) := by
+  intro rest
+  induction rest with
+  | nil =>
+    intro done fuel s _ hf
+    obtain ⟨fuel, rfl⟩ : ∃ k, fuel = k + 1 := ⟨fuel - 1, by omega⟩
+    unfold run3
+    rw [Generated.Zip.checkFiles_loop3]
+    simp only [List.append_nil, not_lt_len_map_toGFile, Bool.false_eq_true, if_false, List.foldl_nil]
+    rfl
+  | cons f rest ih =>
+    intro done fuel s hB hf
+    obtain ⟨fuel, rfl⟩ : ∃ k, fuel = k + 1 := ⟨fuel - 1, by omega⟩
+    have hfB := hB f List.mem_cons_self
+    simp only [List.length_cons] at hf
+    rw [loop3_step ef pgv sf tl vc vl E K hsf hE htl vers ge hge hgm done f rest fuel s (by omega)]
+    have e : done ++ f :: rest = (done ++ [f]) ++ rest := by simp
+    have hl : ((done.length + 1 : Nat) : Int) = ((done ++ [f]).length : Int) := by simp
+    rw [e, hl, ih (done ++ [f]) fuel (Zip.stepFile E ge hgm s f)
+      (fun g hg => hB g (List.mem_cons_of_mem _ hg)) (by omega)]
+    rfl
+
 end
 
 end ModVerif.TieFnZipCf
